@@ -126,7 +126,16 @@ func (b *Batch) Get(key []byte) ([]byte, error) {
 	if pos == nil {
 		return nil, ErrKeyNotFound
 	}
-	value, err := b.db.activeFile.ReadRecordValue(pos)
+	// 记录可能位于旧数据文件中, 根据索引中的文件 id 选择文件
+	// 批处理期间持有 DB 锁, 可直接访问
+	dataFile := b.db.activeFile
+	if dataFile.ID != pos.Fid {
+		dataFile = b.db.olderFiles[pos.Fid]
+	}
+	if dataFile == nil {
+		return nil, ErrDataFileNotFound
+	}
+	value, err := dataFile.ReadRecordValue(pos)
 	if err != nil {
 		return nil, err
 	}
